@@ -690,7 +690,10 @@ func c05Crafted(r *kit.Rand) ([]byte, string) {
 	levels := kit.Pick(r, []int{8, 20, 40, 64, 200})
 	fan := kit.Pick(r, []int{2, 2, 3, 16})
 	what := ""
-	switch k := r.Intn(7); k {
+	switch k := r.Intn(8); k {
+	case 7: // members of an object stream that are streams whose /Length points back into object streams
+		what = "objstm-member-is-a-stream"
+		return c05ObjStmMemberStream(r), what
 	case 6: // a decoder with a helper goroutine followed by filters that cannot work on its output
 		what = "helper-decoder-not-last"
 		jpg := c08JPEG(r, 64+r.Intn(160), 64+r.Intn(160), r.Bool())
@@ -822,6 +825,62 @@ func c05Crafted(r *kit.Rand) ([]byte, string) {
 	h.Revs = []kit.XRev{rev}
 	data, _ := kit.RenderHistory(r, h, true, nil)
 	return data, what
+}
+
+// c05ObjStmMemberStream writes (by hand) a file whose object stream has
+// members of the form "<< /Length N 0 R >> stream ...", where N is the member
+// itself, another member doing the same, or a member of a second object stream.
+func c05ObjStmMemberStream(r *kit.Rand) []byte {
+	var b bytes.Buffer
+	b.WriteString("%PDF-1.7\n")
+	off := map[int]int{}
+	obj := func(n int, body string) {
+		off[n] = b.Len()
+		fmt.Fprintf(&b, "%d 0 obj\n%s\nendobj\n", n, body)
+	}
+	objstm := func(n int, members map[int]string, order []int) {
+		var hdr, body bytes.Buffer
+		for _, m := range order {
+			fmt.Fprintf(&hdr, "%d %d ", m, body.Len())
+			body.WriteString(members[m])
+			body.WriteByte('\n')
+		}
+		data := append(hdr.Bytes(), body.Bytes()...)
+		obj(n, fmt.Sprintf("<</Type/ObjStm/N %d/First %d/Length %d>>\nstream\n%s\nendstream", len(order), hdr.Len(), len(data), data))
+	}
+	// 5, 6 in object stream 4; 8 in object stream 7
+	var m5, m6, m8 string
+	switch r.Intn(4) {
+	case 0: // its own length
+		m5, m6, m8 = "<</Length 5 0 R>> stream\nxx\nendstream", "(six)", "8"
+	case 1: // two members point at each other
+		m5, m6, m8 = "<</Length 6 0 R>> stream\nxx\nendstream", "<</Length 5 0 R>>stream\nyy\nendstream", "8"
+	case 2: // across two object streams
+		m5, m6, m8 = "<</Length 8 0 R>> stream\nxx\nendstream", "6", "<</Length 5 0 R>> stream\r\nzz\nendstream"
+	default: // a proper integer in another object stream
+		m5, m6, m8 = "<</Length 8 0 R>> stream\nxx\nendstream", "<</Length 6 0 R /Filter /FlateDecode>> stream\n", "2"
+	}
+	obj(1, "<</Type/Catalog/Pages 2 0 R/X[5 0 R 6 0 R 8 0 R]>>")
+	obj(2, "<</Type/Pages/Kids[]/Count 0>>")
+	objstm(4, map[int]string{5: m5, 6: m6}, []int{5, 6})
+	objstm(7, map[int]string{8: m8}, []int{8})
+	xr := b.Len()
+	var rows []byte
+	row := func(t, f2, f3 int) { rows = append(rows, byte(t), byte(f2>>8), byte(f2), byte(f3)) }
+	row(0, 0, 255)
+	row(1, off[1], 0)
+	row(1, off[2], 0)
+	row(0, 0, 0)
+	row(1, off[4], 0)
+	row(2, 4, 0)
+	row(2, 4, 1)
+	row(1, off[7], 0)
+	row(2, 7, 0)
+	row(1, xr, 0)
+	fmt.Fprintf(&b, "9 0 obj\n<</Type/XRef/Size 10/W[1 2 1]/Root 1 0 R/Length %d>>\nstream\n", len(rows))
+	b.Write(rows)
+	fmt.Fprintf(&b, "\nendstream\nendobj\nstartxref\n%d\n%%%%EOF\n", xr)
+	return b.Bytes()
 }
 
 func c05Run(c *kit.Case, mon *kit.Monitor, data []byte, what string) {
